@@ -297,6 +297,32 @@ def special_inputs(chk):
                 continue
             if not ok:
                 chk.diverge({"clause": "physical-value", "helper": "reduced", "class": "fractional-dimension"}, {"units": expr, "form": form, "result": str(r)})
+    # to_reduced_units leaves no two units whose dimensionalities are proportional (equal, a power, a reciprocal, both empty): a fixed list
+    # of such pairs, the proportionality decided here from the registry's dimensionalities
+    def proportional(d1, d2):
+        if set(d1) != set(d2):
+            return False
+        if not d1:
+            return True
+        k = next(iter(d1))
+        r = F(d1[k]).limit_denominator(1000) / F(d2[k]).limit_denominator(1000)
+        return all(F(d1[x]).limit_denominator(1000) == r * F(d2[x]).limit_denominator(1000) for x in d1)
+    for expr in ("hertz ** 2 * second", "becquerel * hour * meter", "reciprocal_centimeter * inch ** 3", "liter * meter", "hectare / foot", "gallon * mile / hour",
+                 "knot * gray", "hertz * second * meter", "second * millisecond", "degree * radian * meter", "byte * second / bit", "acre * yard ** -1 * kilogram"):
+        for form in ("to_reduced_units", "ito_reduced_units"):
+            chk.case(("mergeable-pairs", expr, form))
+            try:
+                q = ureg.Quantity(3.0, expr)
+                r = q.to_reduced_units() if form == "to_reduced_units" else (lambda t: (t.ito_reduced_units(), t)[1])(ureg.Quantity(3.0, expr))
+                names = [k for k, _ in r.unit_items()]
+                dims = {k: dict(ureg.get_dimensionality(k)) for k in names}
+                left = [(a, b) for i, a in enumerate(names) for b in names[i + 1:] if proportional(dims[a], dims[b])]
+                same = r.dimensionality == q.dimensionality and abs(r.to_root_units().magnitude - q.to_root_units().magnitude) <= 1e-9 * abs(q.to_root_units().magnitude)
+            except Exception as e:
+                chk.diverge({"clause": "helper-raises", "helper": "reduced", "exc": type(e).__name__, "class": "mergeable-pairs"}, {"units": expr, "form": form})
+                continue
+            if left or not same:
+                chk.diverge({"clause": "mergeable-pair-left" if left else "physical-value", "helper": "reduced", "class": "mergeable-pairs"}, {"units": expr, "form": form, "result": str(r), "pairs": left})
     # uncertain magnitudes: the nominal value decides the prefix
     for m, un in ((ufloat(2500.0, 1.0), "kilometer"), (ufloat(0.0025, 0.0001), "millisecond"), (ufloat(2.5e7, 1.0), "gram")):
         chk.case(("ufloat-compact", repr(m), un))
